@@ -230,6 +230,7 @@ impl Property for C02 {
             vec![]
         };
         let mut find = FindScenario::new(spec, vec![]);
+        find.gen_extras(rng, false);
         find.mutations = mutations;
         find.sink_plan = sink_plan;
         find.record_delim = 0;
